@@ -34,6 +34,28 @@ HINTS = {
  "C17": "Look at the dispatch of the first token, at whitespace splitting, at `quit`/EOF while a search is running, and at `isready` handling between other commands.",
  "C18": "Look at how the info line is assembled: PV length/termination, node counter resets, depth field across iterations, time field, mate-vs-cp threshold, score ordering within a depth.",
 }
+HINTS_R5 = {
+ "C01": "Earlier rounds changed castling rights, en passant bookkeeping, promotion and the fast paths of the check test. Look elsewhere: how pseudo-legal targets of bishops/rooks/queens/knights/king are enumerated (loop bounds, the sentinel ring, stopping on own vs enemy piece), pawn pushes (single/double, blocked), pawn captures on the a/h files, the legality filter for king steps along the line of a checking slider, and a `perft`-neutral pair of slips (one extra and one missing move) is especially welcome.",
+ "C02": "Prefer a fault that is invisible in the successor itself and only shows in a LATER successor of a chain (a field inherited through clone(): king squares, rights, ep target, last_move, pawn_promotion), or one that needs two particular moves in a row (e.g. a capture by a king, then castling by the other side; a double step, then a double step on the adjacent file).",
+ "C03": "Prefer a fault that needs a particular interleaving of the search thread and the polling I/O thread (which message is taken when several are queued, what happens when the deadline falls between two sends, a move received after the loop condition was evaluated), or a particular SEQUENCE of go commands without a new position (state carried from one go to the next).",
+ "C04": "Look at `position fen ... moves ...` (which tokens form the FEN, where the move list starts, FENs with Black to move or with an en-passant square), at moves played by Black in the text applier (mirror-image constants), and at the king-square cache / hash after the text applier's castling and en passant.",
+ "C05": "Look at the from-scratch key in the FEN loader (partial castling rights, Black to move, ep square), at ZobristHasher's getters and table layout (index computation from piece kind/colour/square), and at updates made when a rook or king captures or is captured on its home square.",
+ "C06": "Look at how the colour argument selects the king square and the attacking colour, at rays that start next to the board edge, at which piece kinds count on diagonals vs. straight lines, at the king-adjacency test, and at pawn attack direction for each colour - a fault confined to ONE colour or ONE direction is what we want.",
+ "C07": "Prefer a change in how an aborted (timed-out) sub-search unwinds: an early return added for speed, a value compared before the clock is re-read, bookkeeping (repetition record, PV/current line, node counter, killer table) done on the normal path but not on a new abort path, or the quiescence/check-extension path. The fault should only show when the clock expires inside a particular kind of node.",
+ "C08": "Prefer a fault that needs a particular timing or kind of position: the search thread finishing (all depths done, forced line, single reply) long before the deadline, the deadline falling before the first send, a terminal position, a very large or very small slice, arithmetic on the slice (u128/i128 conversions), or the polling loop's sleep/recv order.",
+ "C09": "Look at GameTime::calculate_time_slice arithmetic (order of subtraction/multiplication/division, float/integer casts, rounding, negative or zero values, increment handling, which side's fields are read) and at parse_go_command's token loop (a value that is itself a keyword, a keyword as last token, repeated keywords).",
+ "C10": "Look at the search's own add/remove bookkeeping of the repetition record along the current line (check extension, null move, quiescence, early returns), at DrawTable's add/remove/clear/is_threefold functions themselves, and at what `go` after `go` (no new position) leaves in the record.",
+ "C11": "Look at the mate score as a function of ply (sign, off-by-one, check extension and null move changing the ply), at the stalemate/no-moves test (which colour's check status is asked), and at mate-distance pruning bounds returning a bound that the root then reports.",
+ "C12": "Prefer a change to an ordering or windowing device that is value-neutral in most positions and changes the value only in special ones: killer table slots shared between plies, PV bookkeeping that reorders, the fail-soft/fail-hard return value of quiescence or of a cut-off, stand-pat when in check, the check extension at depth 0.",
+ "C13": "Look at the capture-only variants of the king, knight and slider generators (what counts as a capture, empty target squares, own pieces), at en passant in capture-only mode (is it offered? is the captured pawn removed?), and at the castling-right / king-square bookkeeping of capture-only successors that a later capture in the chain depends on.",
+ "C14": "Look at the game-phase computation (which pieces count, clamp), the taper formula (integer division/rounding, operator precedence), and the table lookup for one particular piece kind or one colour; a fault that vanishes for symmetric or opening-phase positions and appears only at unusual material (several queens, no minor pieces, bare kings) is what we want.",
+ "C15": "Look at the piece-placement loop (digit handling, 8 squares per rank, 8 ranks, trailing '/'), the side-to-move and castling fields (unknown letters, '-', duplicates), the en-passant field, king bookkeeping when a king letter appears twice or never, and integer parsing of the counters (signs, overflow, '+').",
+ "C16": "Look for anything that could outlive a `position` or `go`: the board variable when `position` fails or is partial, the repetition record after `go` (the engine plays its own move on its board), option state, lazily initialised or cached values, thread-locals/statics introduced 'for speed', the detached search thread of a previous go still running.",
+ "C17": "Look at read_from_gui/clean_input (tabs, carriage returns, leading blanks, empty line), the dispatcher's handling of `commands[0]`, `quit` while a search thread is running, EOF while a search is running, and `setoption` variants; a fault that needs a particular ORDER of garbage and real commands is what we want.",
+ "C18": "Look at what the info line reads from shared search state at the moment it is printed: the PV array (stale tail from a previous iteration, empty PV), node counter, the depth variable, the elapsed time; and at the boundary cases of the mate window (scores exactly at MATE_SCORE - 15, positive vs negative rounding).",
+}
+if suffix >= "r5":
+    HINTS = HINTS_R5
 tmpl = open(os.path.join(os.path.dirname(__file__), "seed_prompt_template.txt")).read()
 os.makedirs(out, exist_ok=True)
 for pid, p in props.items():
